@@ -176,6 +176,10 @@ def einsum(subscripts, *operands):
         else:
             conv_operands.append(op)
 
+    if '->' not in subscripts:
+        # implicit mode of numpy: the output carries the indices which appear once, in alphabetical order
+        in_subscripts = subscripts.replace(',', '').replace(' ', '')
+        subscripts += '->' + ''.join(sorted([c for c in set(in_subscripts) if in_subscripts.count(c) == 1]))
     tmp_subscripts = ','.join([o + '...' for o in subscripts.split(',')])
     extended_subscripts = '->'.join([o + '...' for o in tmp_subscripts.split('->')[:-1]] + [tmp_subscripts.split('->')[-1]])
     einsum_path = np.einsum_path(extended_subscripts, *conv_operands, optimize='optimal')[0]
